@@ -1260,6 +1260,9 @@ impl Union for AdjacencyMap {
                                         j += 1;
                                     }
                                     Ordering::Equal => {
+                                        let a = read(lhs_ptr.add(i));
+                                        let b = read(rhs_ptr.add(j));
+
                                         let union_set =
                                             union_sets_unsafe(&a.1, &b.1);
 
@@ -1286,6 +1289,16 @@ impl Union for AdjacencyMap {
                 merged_entries.extend(h.join().unwrap());
             }
         });
+
+        // The workers moved every row out of both vectors; only the buffers
+        // are left to release.
+        unsafe {
+            let mut lhs_vec = ManuallyDrop::into_inner(lhs_vec);
+            let mut rhs_vec = ManuallyDrop::into_inner(rhs_vec);
+
+            lhs_vec.set_len(0);
+            rhs_vec.set_len(0);
+        }
 
         merged_entries.sort_unstable_by_key(|&(k, _)| k);
 
